@@ -302,7 +302,9 @@ Inductive op :=
 | OStart            (* Start(), then the loop runs until the queue is empty / the loop has ended *)
 | ORun              (* the busy loop is released: runs until the queue is empty / it has ended *)
 | OStopSvc (who : Z). (* wait as OWait 0, then Stop() called by: 0 a foreign goroutine, 1 a task
-                        of the loop itself (the same transition: Stop() touches flags only) *)
+                        of the loop itself (the same transition: Stop() touches flags only).
+                        Stop() of a service that is not up (never started, stopped already) is
+                        not driven: only the wait happens *)
 
 Inductive cbrec := CbRec (k n : Z) (args_ok early after_cancel on_owner : bool).
 
@@ -310,8 +312,8 @@ Inductive obs :=
 | BUnit
 | BQueued (l : list Z)      (* timers whose expiry reached the queue during this Settle *)
 | BRan (l : list cbrec)     (* callbacks that ran during this op *)
-| BWait (n : Z) (l : list cbrec). (* number of expiries that reached the channel; callbacks that
-                                     ran although nobody was released to run them (never, in the model) *)
+| BWait (q : list Z) (l : list cbrec). (* timers whose expiry reached the channel; callbacks that ran
+                                          although nobody was released to run them (none, in the model) *)
 
 Fixpoint pending (m : alist timer) : list (Z * Z) :=
   match m with
@@ -360,10 +362,16 @@ Definition deliver (s : st) (k : Z) : list step_t :=
   | None => []
   end.
 
+(* Before the loop takes the expiry of k, the armed timers among k and the timers that run
+   later in this release deliver theirs: an expiry that is going to be run has arrived at some
+   moment before, and "as early as possible" is the schedule under which it survives a Stop()
+   issued by a callback in between (TimerMgr.Stop() only keeps LATER expiries out of the
+   channel). *)
 Fixpoint follow (s : st) (l : list Z) : list step_t :=
   match l with
   | [] => []
-  | k :: r => let xs := deliver s k ++ do_steps s k in xs ++ follow (fst (run_from s xs)) r
+  | k :: r => let xs := flat_map (deliver s) (k :: r) ++ do_steps s k in
+              xs ++ follow (fst (run_from s xs)) r
   end.
 
 (* then: a loop that is not being stopped goes on until the queue is empty (every expiry that
@@ -393,7 +401,7 @@ Definition compile (s : st) (o : op) (l : list Z) : list step_t :=
   | OWait g => wait_steps s g
   | OStart => SStart :: loop_steps (fst (step s SStart)) l
   | ORun => loop_steps s l
-  | OStopSvc _ => wait_steps s 0 ++ [SStop; SClose]
+  | OStopSvc _ => wait_steps s 0 ++ match life_of s with LUp => [SStop; SClose] | _ => [] end
   end.
 
 Fixpoint count_cb (k : Z) (tr : list ev) : Z :=
@@ -423,7 +431,7 @@ Definition obs_of (o : op) (tr e : list ev) : obs :=
   | OCreate _ _ _ _ | OCreateN _ _ _ _ | OStall _ | OCancel _ | OSvc => BUnit
   | OStop | OSettle _ => BQueued (queued_of e)
   | ODo _ | ODoAll | OStart | ORun => BRan (cbrecs tr e)
-  | OWait _ | OStopSvc _ => BWait (Z.of_nat (length (queued_of e))) (cbrecs tr e)
+  | OWait _ | OStopSvc _ => BWait (queued_of e) (cbrecs tr e)
   end.
 
 Definition rec_key (r : cbrec) : Z := match r with CbRec k _ _ _ _ _ => k end.
